@@ -44,6 +44,8 @@ def obligations(tier):
     arrangements = [[0, 1, 2]] if tier == 'quick' else [[0, 1, 2], [2, 0, 3], [3, 2, 1], [1, 3, 0]]
     for arr in arrangements:
         for qlen in range(0, 4):
+            if qlen == 0 and arr != arrangements[0]:
+                continue
             q = arr[:qlen]
             callers = sorted(set(q)) + [min(x for x in range(4) if x not in q)]
             for c in callers:
